@@ -1,6 +1,6 @@
 """Tables extracted from stone/backend.py (C18)."""
 import ast
-from extract_tables import extractor, parse, lean_str, lean_list
+from extract_tables import extractor, parse, lean_str, lean_list, lean_int
 
 @extractor
 def backend_escape_pairs(repo):
@@ -17,3 +17,102 @@ def backend_escape_pairs(repo):
     pairs.reverse()  # ast.walk meets the outermost call first; application order is innermost first
     return 'def emitRawReplacements : List (String × String) := %s' % lean_list(
         '(%s, %s)' % (lean_str(a), lean_str(b)) for a, b in pairs)
+
+
+def _func(tree, name, cls=None):
+    for node in ast.walk(tree):
+        if isinstance(node, ast.ClassDef) and cls is not None and node.name != cls:
+            continue
+        if isinstance(node, ast.FunctionDef) and node.name == name:
+            return node
+    raise KeyError(name)
+
+
+def _expr_src(node):
+    return ast.unparse(node).replace(' ', '')
+
+
+@extractor
+def backend_containment_tests(repo):
+    """The disjuncts of the `if` that guards the AssertionError of `_relative_output_path`, as source text
+    (os.pardir / os.sep spelled out), and the expression the function returns."""
+    fn = _func(parse(repo, 'stone/backend.py'), '_relative_output_path')
+    tests = []
+    for node in fn.body:
+        if isinstance(node, ast.If) and any(isinstance(x, ast.Raise) for x in node.body):
+            t = node.test
+            parts = t.values if isinstance(t, ast.BoolOp) and isinstance(t.op, ast.Or) else [t]
+            if isinstance(t, ast.BoolOp) and not isinstance(t.op, ast.Or):
+                parts = ['<not-a-disjunction>:' + _expr_src(t)]
+            tests = [p if isinstance(p, str) else _expr_src(p) for p in parts]
+    ret = [_expr_src(n.value) for n in fn.body if isinstance(n, ast.Return)]
+    return ('def relativeOutputPathTests : List String := %s\n'
+            'def relativeOutputPathReturn : List String := %s' % (
+                lean_list(lean_str(t) for t in tests), lean_list(lean_str(r) for r in ret)))
+
+
+EFFECT_CALLS = ('_validate_output_path', '_record_output_path', 'makedirs', 'mkdir', 'open', 'copy', 'copyfile',
+                'copy2', 'write')
+
+
+def _call_order(fn):
+    """Names of the file-system relevant calls of a function in source order (line, column)."""
+    calls = []
+    for node in ast.walk(fn):
+        if isinstance(node, ast.Call):
+            f = node.func
+            name = f.attr if isinstance(f, ast.Attribute) else (f.id if isinstance(f, ast.Name) else None)
+            if name in EFFECT_CALLS:
+                calls.append((node.lineno, node.col_offset, name))
+    return [c[2] for c in sorted(calls)]
+
+
+@extractor
+def backend_effect_order(repo):
+    """Order of validation / recording / file-system calls in the three writers."""
+    be = parse(repo, 'stone/backend.py')
+    sw = parse(repo, 'stone/backends/swift.py')
+    rows = [('outputToRelativePathCalls', _call_order(_func(be, 'output_to_relative_path'))),
+            ('copyToPathCalls', _call_order(_func(be, 'copy_to_path'))),
+            ('swiftWriteCalls', _call_order(_func(sw, '_write_output_in_target_folder')))]
+    return '\n'.join('def %s : List String := %s' % (n, lean_list(lean_str(c) for c in cs)) for n, cs in rows)
+
+
+@extractor
+def backend_emit_constants(repo):
+    """indent_step() values, the default width of emit_wrapped_text, the default delimiters of block /
+    generate_multiline_list."""
+    be = parse(repo, 'stone/backend.py')
+    step = _func(be, 'indent_step')
+    vals = None
+    for node in ast.walk(step):
+        if isinstance(node, ast.IfExp) and isinstance(node.body, ast.Constant) and isinstance(node.orelse, ast.Constant):
+            vals = (node.body.value, node.orelse.value, _expr_src(node.test))
+    if vals is None:
+        vals = (-1, -1, '?')
+    ewt = _func(be, 'emit_wrapped_text')
+    names = [a.arg for a in ewt.args.args]
+    defaults = dict(zip(names[len(names) - len(ewt.args.defaults):], ewt.args.defaults))
+    width = defaults['width'].value if isinstance(defaults.get('width'), ast.Constant) else -1
+    blw = defaults['break_long_words'].value if isinstance(defaults.get('break_long_words'), ast.Constant) else None
+    boh = defaults['break_on_hyphens'].value if isinstance(defaults.get('break_on_hyphens'), ast.Constant) else None
+
+    def delim_default(fname):
+        fn = _func(be, fname)
+        ns = [a.arg for a in fn.args.args]
+        ds = dict(zip(ns[len(ns) - len(fn.args.defaults):], fn.args.defaults))
+        d = ds.get('delim')
+        if isinstance(d, ast.Tuple) and all(isinstance(e, ast.Constant) for e in d.elts):
+            return [e.value for e in d.elts]
+        return []
+    return '\n'.join([
+        'def indentStepTabs : Nat := %s' % lean_int(vals[0]),
+        'def indentStepSpaces : Nat := %s' % lean_int(vals[1]),
+        'def indentStepTest : String := %s' % lean_str(vals[2]),
+        'def wrapDefaultWidth : Nat := %s' % lean_int(width),
+        'def wrapDefaultBreakLongWords : Bool := %s' % ('true' if blw else 'false'),
+        'def wrapDefaultBreakOnHyphens : Bool := %s' % ('true' if boh else 'false'),
+        'def blockDefaultDelim : List String := %s' % lean_list(lean_str(x) for x in delim_default('block')),
+        'def multilineListDefaultDelim : List String := %s' % lean_list(
+            lean_str(x) for x in delim_default('generate_multiline_list')),
+    ])
